@@ -760,6 +760,11 @@ def gen_plan(rng, check="C10", size=1, max_steps=60, known_avoid=()):
     # noise session
     fault_rate = rng.choice([0.0, 0.08, 0.15, 0.25])
     enabled = [k for k in ("flood", "gc", "touch") if rng.random() < 0.75]
+    # echo: the very same question (same object, same arguments) asked again - straight away or at the end of the
+    # history.  The cheapest history there is; every answer that is computed lazily, validated lazily or served from a
+    # cache on the second call has to survive it
+    echo_p = rng.choice([0.0, 0.0, 0.08, 0.2, 0.45])
+    late_echoes = []
     # interleave
     order = []
     idx = [0] * len(sessions)
@@ -774,6 +779,12 @@ def gen_plan(rng, check="C10", size=1, max_steps=60, known_avoid=()):
                 order.append(sessions[i][idx[i]])
                 idx[i] += 1
                 remaining -= 1
+                if echo_p and order[-1].get("t") == "call" and rng.random() < echo_p:
+                    echo = copy.deepcopy({k: v for k, v in order[-1].items() if k != "store"})
+                    if rng.random() < 0.5:
+                        order.append(echo)
+                    else:
+                        late_echoes.append(echo)
                 if enabled and rng.random() < fault_rate:
                     k = rng.choice(enabled)
                     if k == "flood":
@@ -782,6 +793,7 @@ def gen_plan(rng, check="C10", size=1, max_steps=60, known_avoid=()):
                         order.append({"s": 9, "t": "gc"})
                     else:
                         order.append({"s": 9, "t": "touch", "obj": rng.choice(list(pb.objects))})
+    order.extend(late_echoes[:40])
     # drop stored-object recipes whose defining step fell beyond max_steps, and steps that use them
     plan = {"check": check, "objects": pb.objects, "steps": order}
     return normalize(plan)
